@@ -30,9 +30,8 @@ def design(rep, work, tier):
     runs = [("all data L=6 max=3 n=3 +cancel", (6, 1, 3, 3, 5, 6, 0, "TRUE", "TRUE"), ["NeverInSync", "NeverSkipped", "NeverInterrupted", "NeverOkAfterCancel"]),
             ("zero-heavy L=14 max=3 n=3", (14, 1, 3, 3, 3, 3, 13, "TRUE", "FALSE"), ["NeverNullSend", "NeverNPop"])]
     if tier == "thorough":
-        runs += [("all data L=7 max=3 n=3 +cancel, aggregator interleaved", (7, 1, 3, 3, 6, 7, 0, "FALSE", "TRUE"), []),
-                 ("all data L=8 max=2 n=4 eager", (8, 1, 2, 4, 7, 8, 0, "TRUE", "FALSE"), []),
-                 ("zero-heavy L=17 max=3 n=4", (17, 1, 3, 4, 3, 3, 16, "TRUE", "FALSE"), ["NeverNullSend"])]
+        # measured: four workers do not finish (L=6 max=2 n=4: > 46 M distinct states after 15 min, L=7: > 98 M after 40 min)
+        runs += [("all data L=7 max=3 n=3 +cancel, aggregator interleaved", (7, 1, 3, 3, 6, 7, 0, "FALSE", "TRUE"), [])]
     for name, c, witnesses in runs:
         cfg = vlib.write_cfg(os.path.join(work, "mc.cfg"), MC % (c + (SAFE,)))
         r = vlib.tlc_design("ParChunkerMC", cfg, work, workers=14, timeout=3400, heap="24g")
